@@ -701,7 +701,15 @@ def other_plan(ctx):
     # ---- HITS: small rectangular and square non-negative matrices
     for _ in range(40 if quick else 400):
         nr, nc = rng.randint(2, 6), rng.randint(2, 6)
-        dense = np.array([[rng.choice([0, 0, 1, 1, 2, 3]) for _ in range(nc)] for _ in range(nr)], dtype=float)
+        if rng.random() < 0.35:
+            # very sparse, distinct weights, null rows / columns: the leading singular vectors have exact zeros, where
+            # the SVD solver leaves round-off noise of either sign
+            dense = np.zeros((nr, nc))
+            ws = rng.sample([1, 2, 3, 4, 5, 6, 7], min(7, max(nr, nc)))
+            for k, wv in enumerate(ws[:rng.randint(1, max(nr, nc))]):
+                dense[rng.randrange(nr), k % nc] = wv
+        else:
+            dense = np.array([[rng.choice([0, 0, 1, 1, 2, 3]) for _ in range(nc)] for _ in range(nr)], dtype=float)
         if dense.sum() == 0:
             dense[rng.randrange(nr), rng.randrange(nc)] = 1
         b = sparse.csr_matrix(dense)
